@@ -483,6 +483,28 @@ PROPS = {
             "(the native search compares the resulting MACs with an independent computation for all four algorithms)",
         ],
     },
+    "C16": {
+        "level": "proof",
+        "level_prefix": "Partial proof -- contracts discharged without bound on the mechanism named below, not the whole statement (what is left out is listed): ",
+        "units": ["ednsneg"],
+        "kani": [],
+        "explanation": "The size clause of the statement, at the place where the limit is decided. EdnsMiddlewareSvc::preprocess (net/server/middleware/edns.rs, the whole 170-line function, real text): for every request, "
+                       "exactly the requests RFC 6891 6.1.1 / 6.1.3 and RFC 7828 3.2.1 name are broken off -- more than one OPT record, an OPT record that does not parse, a keep-alive option with a timeout over TCP: FORMERR; "
+                       "an EDNS version above 0: BADVERS -- and no other; for a UDP request with a usable OPT record the limit installed in the transport context (which the mandatory middleware truncates to) is at least 512, "
+                       "at most the requestor's advertised payload size with values below 512 counted as 512, and, if the server was configured with a limit, at most that limit (not under 512). The property is the "
+                       "*precondition* of the model of UdpTransportContext::set_max_response_size_hint (the real one stores through Arc<Mutex<..>> behind a shared reference, so no postcondition of preprocess can name the "
+                       "stored value; the model context carries the advertised size of the request's first OPT record as ghost state). The u16 arithmetic and Ord::clamp (lo <= hi) cannot panic. "
+                       "reserve_space_for_opt (real text): 11 octets are reserved for the OPT record of the response, 17 over TCP (keep-alive option).",
+        "not_covered": "Everything else of the statement: that every response is sent back once, to the requester, with the request's ID and question, correctly framed (sockets, tasks and middleware stacks over tokio); that the "
+                       "limit decided here is the one enforced -- MandatoryMiddlewareSvc::truncate compares the response length with the hint (512 without EDNS) and rebuilds header, question and OPT record, which is not "
+                       "under contract (message builder with closures; the rebuilt message is not compared with the limit again: an observation, see DESIGN.md) --; TC bit and well-formedness of truncated messages; "
+                       "hostile input on one connection not affecting others. Message::opt() / additional() / the OPT iterator are models (C01 has the real iterators).",
+        "assumptions": [
+            "Request, Message, OptRecord, TransportSpecificContext and the tracing macros are prelude models; log_enabled!() may answer anything",
+            "the ghost payload size of the model context equals the size advertised by the request's first OPT record (Request::inv)",
+            "u16::max / u16::min / Ord::clamp are core::cmp::max / min and the three-way clamp (substituted; core's Ord for u16)",
+        ],
+    },
     "C15": {
         "level": "proof",
         "level_prefix": "Partial proof -- contracts discharged without bound on the mechanisms named below, not the whole statement (bounded stand-ins and what is left out are listed): ",
